@@ -30,7 +30,7 @@ def make_item(it, flip, transformed):
         return GradientResults(batch_id=it["id"], metadata={"domain": "optimizer" if transformed else "user"}, realizations=Realizations(failed_realizations=np.array([False])),
                                evaluations=GradientEvaluations.create(np.zeros(1), np.zeros((1, 1, 1)), np.zeros((1, 1, 1))),
                                gradients=None)
-    obj = float("nan") if it["nan"] else float(it["obj"])
+    obj = float("nan") if it["nan"] else float("inf") if it["obj"] == 9 else float(it["obj"])
     if transformed and flip:
         obj = -obj
     functions = None
@@ -50,7 +50,9 @@ def drive(sc):
     tol = None if par["tolnone"] else (0.0 if par.get("tol") == "zero" else 0.1)
     plan = Plan(OptimizerContext(evaluator=lambda *_: None, plugin_manager=plugin_manager()))
     tracked, tracked2, other = uuid.uuid4(), uuid.uuid4(), uuid.uuid4()
-    tracker = plan.add_handler("tracker", what=par["what"], constraint_tolerance=tol, sources={tracked, tracked2})
+    srcs = par.get("srcs", "set")
+    kw = {"set": {"sources": {tracked, tracked2}}, "none": {"sources": None}, "omitted": {}, "empty": {"sources": set()}}[srcs]
+    tracker = plan.add_handler("tracker", what=par["what"], constraint_tolerance=tol, **kw)
     trace = []
     for ev in sc["events"]:
         items = [dict(it, feas_raw=it["feas"]) for it in ev["items"]]
@@ -63,7 +65,7 @@ def drive(sc):
         kept = plan.get(tracker, "results")
         eff = [{k: it[k] for k in ("id", "kind", "hasfun", "obj", "nan")} | {"feas": bool(it["feas"] or par["tolnone"])}
                for it in ev["items"]]
-        trace.append({"ev": "Event", "what": par["what"], "flip": bool(par["flip"]), "src": ev["src"], "items": eff,
+        trace.append({"ev": "Event", "what": par["what"], "flip": bool(par["flip"]), "src": ev["src"], "items": eff, "listens": srcs == "set",
                       "kept": 0 if kept is None else int(kept.batch_id),
                       # what a handler hands out is the result the USER sees, never its optimizer-domain twin
                       "keptuser": bool(kept is None or kept.metadata.get("domain") == "user")})
@@ -136,7 +138,7 @@ def drive_real(sc):
                               "nan": nan or not hasfun, "feas": feas})
             else:
                 items.append({"id": k, "kind": "G", "hasfun": False, "obj": 0, "nan": True, "feas": True})
-        trace.append({"ev": "Event", "what": "best", "flip": False, "src": "tracked", "items": items, "kept": -1, "keptuser": True})
+        trace.append({"ev": "Event", "what": "best", "flip": False, "src": "tracked", "items": items, "kept": -1, "keptuser": True, "listens": True})
     # only the final state is observable through BasicOptimizer: judge the last event, mark the others as unobserved
     final = 0 if opt.results is None else ids.get(id(opt.results), -2)
     out = []
